@@ -255,6 +255,9 @@ inductive REv where
   /-- `freeze()`; `etag` is `generate_etag(data)` (SHA-1, opaque) -/
   | freeze (etag : Str)
   | setData (b : Bytes)
+  /-- `response.stream.write(b)` (`ResponseStream`): the body is made a mutable list, `b` is
+  appended and a Content-Length header is dropped -/
+  | streamWrite (b : Bytes)
   /-- `response.close()` / leaving `with response:` -/
   | close
   | getWsgi (method : Str) (locOut clocOut : Str)
@@ -316,6 +319,12 @@ def nextEv (s : St) : REv → St × Except String Out
       else s.r.headers
     ({ s with r := { s.r with body := ⟨.seq, [.bytes b]⟩, headers := h },
               held := match s.r.body.kind with | .stream _ => detach s.held s.r.body.items | .seq => s.held }, .ok .unit)
+  | .streamWrite b =>
+    match ensureSequence s with
+    | .error e => (s, .error e)
+    | .ok s' =>
+      ({ s' with r := { s'.r with body := ⟨.seq, s'.r.body.items ++ [.bytes b]⟩,
+                                  headers := (popKey s'.r.headers "Content-Length".toList (some [])).1 } }, .ok .unit)
   | .close => ({ s with log := s.log ++ respClose s.r }, .ok .unit)
   | .getWsgi method lo co =>
     let headers := getWsgiHeadersCfg s.cfg.autoLength s.r lo co
